@@ -5,7 +5,7 @@ set -e
 cd /verif/checker
 env -u GOWORK GOFLAGS=-mod=mod GOPROXY=off GOSUMDB=off GOTOOLCHAIN=local go build -o /verif/bin/dbcheck .
 git -C /repo diff --quiet || { echo "/repo has local modifications"; exit 1; }
-/verif/bin/dbcheck -survey anchors 2>/dev/null > /tmp/anchors.json.new
+/verif/bin/dbcheck -survey anchors 2>/dev/null > /tmp/anchors.json.new; ANCHOR_FIELDS=1 /verif/bin/dbcheck -survey anchors 2>/dev/null > anchor_fields.json
 python3 -c "import json;print(len(json.load(open('/tmp/anchors.json.new'))),'anchors')"
 mv /tmp/anchors.json.new anchors.json
 env -u GOWORK GOFLAGS=-mod=mod GOPROXY=off GOSUMDB=off GOTOOLCHAIN=local go build -o /verif/bin/dbcheck .
